@@ -104,6 +104,18 @@ func checkOne(c *mon.Case, s pad.Scheme, bs int, m []byte, capMode string) {
 		src = buf[:len(m):len(m)]
 	case "spare": // capacity for everything the scheme may append
 		src = buf[: len(m) : len(m)+room]
+	case "fit": // exactly the padded length (for method 3: exactly the appended form's length)
+		k := len(want)
+		if k < len(m) {
+			k = len(m)
+		}
+		src = buf[:len(m):k]
+	case "fit+1":
+		k := len(want) + 1
+		if k < len(m) {
+			k = len(m)
+		}
+		src = buf[:len(m):k]
 	case "tight": // one byte less than the padded length
 		k := len(want) - 1
 		if k < len(m) {
@@ -168,7 +180,7 @@ func checkOne(c *mon.Case, s pad.Scheme, bs int, m []byte, capMode string) {
 }
 
 func grid(x *mon.Ctx) {
-	capModes := []string{"exact", "spare", "tight"}
+	capModes := []string{"exact", "spare", "tight", "fit", "fit+1"}
 	nk := x.Scale(3, len(kinds))
 	reps := x.Scale(1, 3)
 	for _, s := range schemes {
@@ -180,7 +192,7 @@ func grid(x *mon.Ctx) {
 						kind = "random"
 					}
 					for rep := 0; rep < reps; rep++ {
-						cm := capModes[(n+ki+rep)%3]
+						cm := capModes[(n+ki+rep)%len(capModes)]
 						c := x.Begin("grid scheme=%v bs=%d len=%d kind=%s cap=%s rep=%d", s, bs, n, kind, cm, rep)
 						if c == nil {
 							continue
